@@ -38,6 +38,7 @@ import sys
 sys.path.insert(0, os.path.dirname(os.path.dirname(os.path.abspath(__file__))))   # harness/ (for `--judge`)
 import common
 import optlib
+import optcfglib
 from common import WorkerStats, canon
 
 META = {
@@ -110,7 +111,20 @@ def _sig_var_word_steals_option_value(w):
     return any(a[0] in ('sDet', 'lDet') and is_var_word(a[-1]) for a in (case.get('asgs') or []))
 
 
+def _sig_unknown_reporter_loader_name(w):
+    """F-C16f: path plug, the name is neither a core class nor defined in any plugin layer, and it is a loader name or a
+    reporter name that was not written on the command line"""
+    case = w.get('case') or {}
+    if case.get('path') != 'plug' or w.get('failed') != 'reject':
+        return False
+    defined = any(case['name'] in [n for n, _ in (lay or [])] for lay in case['layers'].values())
+    if defined or case['name'] in case['core']:
+        return False
+    return case['cat'] == 'loader' or (case['cat'] == 'reporter' and case['where'] in ('config', 'dodo'))
+
+
 SIGNATURES = {'var-word-steals-option-value': _sig_var_word_steals_option_value,
+              'unknown-reporter-loader-name': _sig_unknown_reporter_loader_name,
               }
 
 PATHS = ['parse', 'parse', 'command', 'main', 'premain', 'task', 'runtask', 'creator']
@@ -308,6 +322,8 @@ def gen_case(rng, base, path=None):
     return case
 
 
+BLANK_KEYS = set(optcfglib.BLANK)
+
 VIA_DOITMAIN = ('main', 'premain', 'runtask', 'realrun')
 
 
@@ -325,6 +341,10 @@ def add_layers(req, case):
 
 
 def model_request(case):
+    if case['path'] == 'plug':
+        return optcfglib.plug_request(case)
+    if case['path'] == 'conv':
+        return optcfglib.conv_request(case)
     req = {'model': 'opt', 'spec': case['spec'], 'env': case['env'], 'ini': case['ini'], 'glob': case['glob'],
            'dodo': case['dodo'], 'argv': case['argv']}
     add_layers(req, case)
@@ -343,6 +363,8 @@ def model_request(case):
 def aux_requests(case):
     """premain: what the property gives (a) the options written in front of the command name, (b) every option at the
     moment the loader receives them (DOIT_CONFIG not loaded yet)"""
+    if case.get('klayers'):
+        return {'winner': optcfglib.winner_request(case)}
     if case['path'] != 'premain' or case['asgs'] is None:
         return {}
     pre = {'model': 'opt', 'op': 'spec', 'spec': case['lspec'], 'env': [], 'ini': [], 'glob': [], 'dodo': [],
@@ -364,6 +386,10 @@ def spec_request(case):
 
 def run_impl(case, workdir):
     p = case['path']
+    if p == 'plug':
+        return optcfglib.impl_plug(case, workdir)
+    if p == 'conv':
+        return optcfglib.impl_conv(case)
     if p == 'parse':
         return optlib.impl_parse(case)
     if p == 'command':
@@ -445,6 +471,14 @@ def judge(case, impl, model, spec):
     """-> (violations [(label, note)], divergences [note])"""
     if case['path'] == 'realrun':
         return judge_realrun(case, impl, model, spec)
+    if case['path'] == 'plug':
+        return optcfglib.judge_plug(case, impl, model)
+    if case['path'] == 'conv':
+        return optcfglib.judge_conv(case, impl, model)
+    if case.get('klayers'):
+        v0, d0 = optcfglib.judge_layers(case, impl, model)
+        v1, d1 = judge(dict(case, klayers=None), impl, model, spec)
+        return v0 + v1, d0 + d1
     viol, div = [], []
     path = case['path']
     r1 = impl.get('res')
@@ -591,6 +625,8 @@ def refs_of(asgs, opts):
 
 
 def nontrivial(case, impl):
+    if case['path'] in ('plug', 'conv'):
+        return True
     r = impl.get('res') or {}
     if 'err' in r:
         return True
@@ -762,6 +798,28 @@ def witness_of(case, impl, model, spec, label, note):
 # ------------------------------------------------------------------------------------------------ workers
 
 def account(st, case, impl, model, spec):
+    if case['path'] in ('plug', 'conv'):
+        st.case({k: v for k, v in case.items() if k not in BLANK_KEYS or k == 'argv'}, True)
+        st.traces += 1
+        st.count('path:' + case['path'])
+        if case['path'] == 'plug':
+            lay = case['layers']
+            n_def = sum(1 for l in optcfglib.LAYER3 if lay[l] and case['name'] in [n for n, _ in lay[l]])
+            st.count('plug:%s,name-in=%s,defined-in-layers=%d' % (case['cat'], (case.get('cfg_at') or [case['where']])[0] if case['where'] == 'config' else case['where'], n_def))
+            st.count('plug:%s,outcome=%s' % (case['cat'], model.get('pick')))
+            st.count('plug:class=%s' % ((model.get('cls') or ['-'])[0]))
+            st.count('plug:layers-present=%s' % '+'.join(l for l in optcfglib.LAYER3 if lay[l] is not None))
+            if case['name'] in case['core'] and n_def:
+                st.count('plug:plugin-shadows-core-name')
+        else:
+            st.count('conv:%s,cfg=%s,cmd=%s' % (case['opt']['type'], 'ok' if 'ok' in model['cfg'] else model['cfg']['err'],
+                                                 'ok' if 'ok' in model['cmd'] else model['cmd']['err']))
+            st.count('conv:cfg==cmd:%s' % (model['cfg'] == model['cmd']))
+        return
+    if case.get('klayers'):
+        w = (model.get('_aux') or {}).get('winner') or {}
+        st.count('layers:winner=%s' % w.get('winner'))
+        st.count('layers:present=%d,type=%s' % (len(case['klayers']['present']), case['klayers']['type']))
     st.case({'path': case['path'], 'cmd': case.get('cmd'), 'spec': [[o['name'], o['type'], o['short'], o['long'], o['inverse']] for o in case['spec'][case['n_base']:]],
              'argv': case['argv'], 'env': case['env'], 'ini': case['ini'], 'dodo': case['dodo'],
              'prev': case.get('prev_argv'), 'pre': case.get('pre'), 'files': case.get('files'),
@@ -959,6 +1017,14 @@ def run(ctx):
     real = realcmd_cases(random.Random(master.getrandbits(64)), 4 if ctx.tier == 'quick' else 60)
     ctx.count('real-command-tables:cases', len(real))
     cases += real
+    crng = random.Random(master.getrandbits(64))
+    core = optcfglib.core_tables()
+    n_cfg = (1 if ctx.tier == 'quick' else 12) * ctx.boost
+    cfgc = [optcfglib.gen_layers_case(crng, base) for _ in range(150 * n_cfg)] if base is not None else []
+    cfgc += [optcfglib.gen_plug_case(crng, core) for _ in range(150 * n_cfg)]
+    cfgc += [optcfglib.gen_conv_case(crng) for _ in range(120 * n_cfg)]
+    ctx.count('config-side:cases', len(cfgc))
+    cases += cfgc
     small = small_scope_cases(3 if (ctx.tier == 'thorough' or ctx.boost > 1) else 2)
     ctx.extra['exhaustive_small_scope'] = {'tokens': len(SMALL_TOKENS), 'envs': len(SMALL_ENVS),
                                            'max_len': 3 if (ctx.tier == 'thorough' or ctx.boost > 1) else 2,
